@@ -363,6 +363,7 @@ func NewWorld() *World {
 	var nilKey *storetypes.KVStoreKey // keys[...MemStoreKey] is a missing map entry in app.go: typed nil pointer
 
 	declareSchemas()
+	declareInvariants()
 
 	// app.go:446 — first NodeKeeper: OrderKeeper and MarketKeeper are still zero values
 	var zeroOrder orderkeeper.Keeper
@@ -382,5 +383,19 @@ func NewWorld() *World {
 	return w
 }
 
-// TransfersSince returns the bank transfers appended after position n of the ghost log.
-func (w *World) TransferCount() int { return len(w.Bank.Log) }
+func (w *World) TransferCount() int              { return len(w.Bank.Log) }
+func (w *World) TransfersSince(n int) []Transfer { return w.Bank.Log[n:] }
+func (w *World) Bal(addr, denom string) *big.Int { return w.Bank.Bal(addr, denom) }
+
+func (w *World) Snapshot() int           { return sym.Snapshot() }
+func (w *World) At(snap int, f func())   { sym.At(snap, f) }
+func (w *World) WrittenUint64(snap int, store, prefix string) []uint64 {
+	return sym.WrittenUint64(snap, store, prefix)
+}
+func (w *World) WrittenString(snap int, store, prefix, suffix string) []string {
+	return sym.WrittenString(snap, store, prefix, suffix)
+}
+func (w *World) WrittenAny(snap int, store string) bool { return sym.WrittenAny(snap, store) }
+func (w *World) WrittenOutside(snap int, store string, allowed ...string) bool {
+	return sym.WrittenOutside(snap, store, allowed...)
+}
